@@ -5,6 +5,7 @@ CONSTANTS
   PrevByRoute = FALSE
 VIEW View
 INVARIANT DefaultsAreAccepted
+INVARIANT MethodNoneIsRefused
 INVARIANT ZRangeFormulationsAgree
 INVARIANT ZRangeBoundaries
 INVARIANT VerdictIsTotal
